@@ -18,7 +18,7 @@ PID = "C07"
 UNIVERSES = ["E", "M", "P", "O", "W", "T", "N"]
 # (longest arm list, lists longer than this hold at most one arm outside the Lite pool)
 BOUNDS = {
-    "quick":    {"E": (2, 2), "M": (2, 2), "P": (2, 2), "O": (3, 2), "W": (2, 2), "T": (2, 2), "N": (3, 2)},
+    "quick":    {"E": (2, 2), "M": (2, 2), "P": (2, 2), "O": (3, 2), "W": (2, 2), "T": (2, 1), "N": (3, 2)},
     "thorough": {"E": (3, 2), "M": (3, 2), "P": (3, 2), "O": (4, 2), "W": (3, 2), "T": (3, 2), "N": (4, 2)},
 }
 MODEL_INVARIANTS = ["ExhaustiveAgrees", "CexIsSound", "IrrefutableAgrees", "LastUsefulAgrees"]
@@ -196,7 +196,9 @@ def report(u, uni, viols):
                     "counterexample": r["obs"]["cextext"], "diagnostic_irrefutable": r["obs"]["useless"],
                     "panic": r["obs"]["panic"], "semantics_says_exhaustive": r["exp"]["exh"],
                     "semantics_says_irrefutable": r["exp"]["irr"]}
-        kf = [k for k in known if k.get("witness_src") == r["src"] and k.get("universe") == u]
+        # a known finding names its witness exactly: {"witness": {"u":.., "form":.., "arms":[..]}}
+        kf = [k for k in known if k.get("witness", {}).get("u") == u and k["witness"].get("form") == r["form"]
+              and k["witness"].get("arms") == r["arms"]]
         if kf:
             report_known(PID, kf[0]["what"])
             continue
